@@ -594,7 +594,7 @@ func check32(thorough bool, seed int64) {
 		}
 		W := int64(30000)
 		if thorough {
-			W = 3000000
+			W = 1000000
 		}
 		buf := make([]byte, 0, 32)
 		for a := c - W; a <= c+W; a++ {
@@ -775,15 +775,15 @@ func twinSection(r *mon.Run) {
 	fams := structuredFamilies(r)
 	for _, f := range fams {
 		step := 1
-		if f.n > 30000 {
-			step = f.n / 30000
+		if f.n > 8000 {
+			step = f.n / 8000
 		}
 		for j := 0; j < f.n; j += step {
 			inputs = append(inputs, f.gen(j))
 		}
 	}
 	rnd := r.Rand("twin64", 0)
-	for i := 0; i < 200000; i++ {
+	for i := 0; i < 60000; i++ {
 		inputs = append(inputs, randDecimal(rnd))
 	}
 	var stdin bytes.Buffer
